@@ -673,7 +673,7 @@ example : WellFormedTuples [(.str "a", .int 1, .num 2), (.int 1, .str "b", .num 
 /-- **csv_as_rows (delimiter given).** A file made of comment lines followed by data rows (any number: only the
     first `n_scan = 100` are scanned), read with
     the delimiter `d` given as `delimiter=` or through its alias `sep=` (any character), whose rows all split into
-    two fields or all into three, without blanks around the fields, comment characters inside the rows, blank rows,
+    two fields or all into three, without blanks around the fields, blank rows,
     quote characters (`csv.reader` honours quotes, the model's reader does not: `CleanFile.unquoted`) or numeric
     identifiers that are not integers (`hint`: the fast path truncates `1.5`, `from_edge_list` keeps it): `from_csv` returns exactly what `from_edge_list` returns on the
     list of its rows (numeric fast path and string branch alike) — for all flags. -/
@@ -760,7 +760,7 @@ theorem adjacency_dict_as_edges (parse : String → Option Int) (adj : List (Ide
 example : CleanFile ',' (lastComment '#' ["# two edges"]) ['#', '%'] ["# two edges"] ["a,b,2", "b,c,0.5"] ∧
     (∀ s ∈ ["a,b,2", "b,c,0.5"], rstrip s = s) ∧ (∀ s ∈ ["a,b,2", "b,c,0.5"], (splitAt ',' s).length = 3) ∧
     isCommentLine ['#', '%'] "# two edges" = true := by
-  refine ⟨⟨?_, ?_, ?_, ?_, ?_, ?_, ?_⟩, ?_, ?_, ?_⟩ <;> decide +kernel
+  refine ⟨⟨?_, ?_, ?_, ?_, ?_, ?_⟩, ?_, ?_, ?_⟩ <;> decide +kernel
 
 /-- **the inferred delimiter splits every scanned row consistently**: when `scan_header` picks candidate `k`
     because it passes the test `mean > 0 and std == 0`, that character occurs the same number `c ≥ 1` of times
@@ -830,6 +830,8 @@ theorem graphml_preserves (num : String → Option Rat) (parseNat : String → O
               split at h
               · cases h
               · rename_i hrange
+                split at h
+                · cases h
                 cases h
                 obtain ⟨res, hres, hmem, hvals⟩ := triples_sound num parseNat ws others doc.naming
                   doc.symmetrize doc.nodeIds doc.nodes.length doc.nodes.length ws.kind doc.edges ts hts
@@ -861,24 +863,32 @@ theorem graphml_no_weight_key (num : String → Option Rat) (weightKey : String)
   exact ⟨rfl, rfl, rfl⟩
 
 open SkNet.GraphML in
-/-- **no refusal of a well-formed document.** A document with a graph element carrying `edgedefault`, named
-    nodes that all have an id (and no `<data>`), keys that are read without error, and edges whose end points
-    are declared node ids and whose `<data>` children all carry the weight key with a text of its type, is
-    accepted. -/
-theorem graphml_ok (num : String → Option Rat) (parseNat : String → Option Nat) (weightKey : String)
-    (doc : Doc) (ws : WeightSpec) (others : List OtherKey)
+/-- **no refusal of a well-formed document**, the hypotheses being about the document: a graph element carrying
+    `edgedefault`, named nodes that all have an id, `key` elements with an id whose `<default>` texts are of their
+    type (`KeyOk`; name, type and `for` may be absent: DTD defaults), node `<data>` children whose key is a
+    registered key for nodes (or for all) with a text of its type (`DataOk`), edges whose end points are declared
+    node ids and whose `<data>` children are the weight (text of its type) or such a datum for edges, and a weight
+    key that is not declared as a string. (`ws` is what the scan of the keys returns; without a weight key it is
+    the boolean default, see `graphml_no_weight_key`, and every edge datum is then of the second kind.) -/
+theorem graphml_ok (num : String → Option Rat) (parseNat : String → Option Nat) (weightKey : String) (doc : Doc)
     (hg : doc.hasGraph = true) (hed : doc.edgedefault.isSome = true) (hnam : doc.naming = true)
-    (hkeys : scanKeys num weightKey doc.keys ⟨some .bool, none, 1⟩ [] = .ok (ws, others))
-    (hnodes : ∀ c ∈ doc.nodes, c.id.isSome = true ∧ c.data = [])
-    (hedges : ∀ c ∈ doc.edges, (∃ s ∈ doc.nodeIds, c.source = some s) ∧ (∃ t ∈ doc.nodeIds, c.target = some t) ∧
-        ∀ d ∈ c.data, some d.1 = ws.id ∧ ∃ w, convert num ws.ptype d.2 = .ok w) :
+    (hkeys : ∀ k ∈ doc.keys, KeyOk num k)
+    (hnodes : ∀ c ∈ doc.nodes, c.id.isSome = true ∧
+      ∀ d ∈ c.data, DataOk num (registered weightKey doc.keys) "node" d)
+    (hedges : ∀ ws others, scanKeys num weightKey doc.keys ⟨some .bool, none, 1⟩ [] = .ok (ws, others) →
+      ws.ptype ≠ some .str ∧
+      ∀ c ∈ doc.edges, (∃ s ∈ doc.nodeIds, c.source = some s) ∧ (∃ t ∈ doc.nodeIds, c.target = some t) ∧
+        ∀ d ∈ c.data, EdgeDatumOk num ws (registered weightKey doc.keys) d) :
     ∃ r, fromGraphml num parseNat weightKey doc = .ok r := by
+  obtain ⟨ws, hscan⟩ := scanKeys_ok num weightKey doc.keys ⟨some .bool, none, 1⟩ [] hkeys
+  simp only [List.nil_append] at hscan
+  obtain ⟨hstr, hedg⟩ := hedges ws _ hscan
   unfold fromGraphml
   simp only [hg, Bool.not_true, Bool.false_eq_true, if_false]
   cases hedv : doc.edgedefault with
   | none => rw [hedv] at hed; cases hed
   | some ed =>
-    simp only [hkeys]
+    simp only [hscan]
     have hids : doc.nodes.any (fun c => c.id.isNone) = false := by
       rw [List.any_eq_false]
       intro c hc
@@ -887,9 +897,9 @@ theorem graphml_ok (num : String → Option Rat) (parseNat : String → Option N
       | none => rw [hcid] at this; cases this
       | some _ => simp
     simp only [hnam, hids, Bool.and_false, Bool.false_eq_true, if_false]
-    rw [nodesData_ok num others doc.nodes (fun c hc => (hnodes c hc).2)]
+    rw [nodesData_ok num _ doc.nodes (fun c hc => (hnodes c hc).2)]
     simp only
-    obtain ⟨ts, hts, hlt⟩ := triples_ok num parseNat ws others doc.symmetrize doc.nodeIds doc.edges hedges
+    obtain ⟨ts, hts, hlt⟩ := triples_ok num parseNat ws _ doc.symmetrize doc.nodeIds doc.edges hedg
     rw [hts]
     simp only
     have hlen : doc.nodeIds.length = doc.nodes.length := by simp [Doc.nodeIds]
@@ -901,6 +911,7 @@ theorem graphml_ok (num : String → Option Rat) (parseNat : String → Option N
       simp only [Bool.or_eq_true, decide_eq_true_eq, not_or]
       omega
     rw [hr]
+    simp only [Bool.false_eq_true, if_false, hstr]
     exact ⟨_, rfl⟩
 
 open SkNet.GraphML in
@@ -946,7 +957,9 @@ theorem save_load_roundtrip (d : Dataset) (old : Folder)
     — arbitrary files `fs0`, then the bundles of any history of saves (datasets with other attributes, pickled
     ones included) —, after `save` of a dataset with distinct plain dot-free keys the folder holds exactly one
     file per attribute of *that* dataset, and `load` (any `listdir` order) returns exactly its attributes:
-    nothing of the earlier bundles comes back. -/
+    nothing of the earlier bundles comes back. (A statement about the model, in which `shutil.rmtree` is `rmtree _ := []`;
+    that the code empties the folder is checked on disk by the run line `c18.save_into`. A folder that is a
+    symbolic link or a regular file, on which `save` raises, is not modelled.) -/
 theorem save_history_roundtrip (fs0 fs : Folder) (history : List Dataset) (d : Dataset)
     (_hhist : saveAll fs0 history = .ok fs)
     (hk : (d.map (·.key)).Nodup) (hp : ∀ a ∈ d, plainKey a.key = true ∧ DotFree a.key) :
